@@ -1,4 +1,5 @@
 """C02 - a cache written from a mapping answers every query exactly like the mapper (FC + TWIN + PROV clauses)."""
+import os
 import facts as F
 import anchors as A
 import readers as RD
@@ -28,9 +29,16 @@ JAVA_TWINS = [("byte_code_type_to_java_type", "byte_code_type_to_java_type_cache
               ("deobfuscate_bytecode_signature", "deobfuscate_bytecode_signature_cache")]
 
 
-def check_twins(fx, rep, rule):
+def check_twins(fx, rep, rule, only=None):
+    """Sibling agreement as a cross-reference. Alpha-equivalence of the mapper and cache copies is recorded when it holds; a
+    divergence is NOT a violation by itself (a one-sided behaviour-preserving refactor diverges too): every twin function is
+    decided against its reference separately for each implementation by the rules of the same check, and the divergence is
+    listed in the evidence (coverage.twin_divergence) for the reader. Anchors are still required (fail closed)."""
     n = 0
+    div = rep.context.setdefault("twin_divergence", [])
     for nm in TWINS:
+        if only is not None and nm not in only:
+            continue
         a, b = A.method(fx, A.MAPPER, nm), A.method(fx, A.CACHE, nm)
         if len(a) != 1 or len(b) != 1:
             A.one(rep, rule, "twin " + nm, a + b if len(a) + len(b) != 2 else [])
@@ -38,10 +46,14 @@ def check_twins(fx, rep, rule):
         eq, why, ntok = T.compare(fx, a[0], b[0], T.MAPPER_CACHE)
         n += 1
         rep.fn(a[0], b[0])
-        rep.check(rule, "%s/twin/%s" % (rule, nm), eq, loc="src/mapper.rs | src/cache/mod.rs",
-                  found=why or "alpha-equivalent modulo receiver (%d tokens)" % ntok,
-                  expected="mapper and cache versions are the same code modulo the receiver type (twin divergence = one-sided edit)")
+        if eq:
+            rep.ok(rule, "%s/twin/%s" % (rule, nm), loc="src/mapper.rs | src/cache/mod.rs",
+                   found="alpha-equivalent modulo receiver (%d tokens)" % ntok, nontrivial=False)
+        else:
+            div.append(dict(pair=nm, difference=why))
     for x, y in JAVA_TWINS:
+        if only is not None and x not in only:
+            continue
         a, b = A.func(fx, "java", x), A.func(fx, "java", y)
         if len(a) != 1 or len(b) != 1:
             A.one(rep, rule, "twin java::" + x, [])
@@ -51,8 +63,10 @@ def check_twins(fx, rep, rule):
         eq, why, ntok = T.compare(fx, a[0], b[0], subst)
         n += 1
         rep.fn(a[0], b[0])
-        rep.check(rule, "%s/twin/java::%s" % (rule, x), eq, loc="src/java.rs", found=why or "alpha-equivalent modulo receiver (%d tokens)" % ntok,
-                  expected="mapper and cache copies agree")
+        if eq:
+            rep.ok(rule, "%s/twin/java::%s" % (rule, x), loc="src/java.rs", found="alpha-equivalent modulo receiver (%d tokens)" % ntok, nontrivial=False)
+        else:
+            div.append(dict(pair="java::" + x, difference=why))
     return n
 
 
@@ -96,6 +110,17 @@ def run(ctx, rep):
     CF.check_string_table_model(fx, rep, "C02.6")
     nt = check_twins(fx, rep, "C02.7")
     rep.floor("C02.7", nt, 6, "twin pairs")
+    # each query kind of the property, decided for BOTH implementations against the same reference (agreement follows):
+    R1.check_extract_class_name(fx, rep, "C02.2")
+    R1.check_remap_frame_cache(fx, rep, "C02.2")
+    R1.check_find_range(fx, rep, "C02.2")
+    import trace_rules as TR
+    import rules_C16 as R16
+    for impl in ("mapper", "cache"):
+        TR.check_text_api(fx, rep, "C02.9", impl)
+        TR.check_typed(fx, rep, "C02.9", impl)
+    TR.check_format_helpers(fx, rep, "C02.9")
+    R16.check_both_impls(fx, rep, "C02.10")
     import api_rules as AR
     AR.check_mapper_constructors(fx, rep, "C02.8")
     AR.check_frame_api(fx, rep, "C02.api")
